@@ -396,8 +396,16 @@ def normalise(m):
 
 
 def make(smi):
+    """'CN@10' = CN with every atom number shifted by 10 (numbers disjoint from the other seed: union then takes its no-remap branch)"""
     from chython import smiles
+    if smi.startswith('raw:'):          # exactly as the reader leaves it (its stereo labels have not been through fix_stereo again)
+        return smiles(smi[4:])
+    off = 0
+    if '@@' not in smi.rsplit('@', 1)[-1] and smi.rsplit('@', 1)[-1].isdigit():
+        smi, off = smi.rsplit('@', 1)[0], int(smi.rsplit('@', 1)[1])
     m = smiles(smi)
+    if off:
+        m.remap({n: n + off for n in list(m._atoms)})
     if any(bd._order == 4 for *_, bd in m.bonds()):
         m.kekule()
     return normalise(m)
@@ -417,6 +425,9 @@ SEEDS = [
     ('C=CO.[Cu]', 'CN', [READ_STR, ('read', ('connected_components', 'rings_count')), ('add_bond', 3, 4, 8), ('delete_bond', 3, 4),
                          ('add_bond', 1, 3, 1), ('patch', 1, 2, 1, 0), ('patch', 3, 4, 8, 0), ('union', True, False), ('union', True, True),
                          ('swap',), ('delete_atom', 2), ('flush', True, False)]),
+    # the other molecule has atom numbers 11, 12: union takes the branch without renumbering; the union is edited, the source observed
+    ('CCO', 'CN@10', [READ_STR, ('union', False, False), ('union', True, True), ('add_bond', 3, 11, 1), ('delete_atom', 11), ('delete_bond', 11, 12),
+                      ('set_charge', 12, 1), ('enter',), ('exit_ok',), ('swap',)], 'light'),
 ]
 # extra operations exercised at depth 2 on every seed (malformed arguments, remaining operation kinds)
 EXTRA = [('add_atom', 6, 1, False, 2), ('add_atom', 8, 0, True, 7), ('add_bond', 1, 1, 1), ('add_bond', 1, 99, 1), ('add_bond', 1, 2, 2),
@@ -512,12 +523,14 @@ class Corr:
             self.shared_atoms.append((tag, ops, sh))
 
 
-def exhaustive_sequences(ck, si, alphabet, depth, depth_extra):
+def exhaustive_sequences(ck, si, alphabet, depth, depth_extra, light=False):
     seqs = [()]
     for d in range(1, depth + 1):
         seqs += list(itertools.product(alphabet, repeat=d))
     # malformed arguments / remaining operation kinds
     pool = alphabet + EXTRA
+    if light:                   # a seed added for one mechanism: its own alphabet exhaustively, the remaining operations once
+        depth_extra = min(depth_extra, 1)
     if depth_extra >= 1:
         seqs += [(e,) for e in EXTRA]
     quick = ck.tier == 'quick'
@@ -533,7 +546,7 @@ def explore_exhaustive(cr, depth, depth_extra, do_search=True):
     """every sequence is run ONCE on the real code; the model is compared on its final state (all prefixes are sequences of
     their own) and the search oracles look at the same run"""
     ck = cr.ck
-    for si, (cur, other, alphabet) in enumerate(SEEDS):
+    for si, (cur, other, alphabet, *flags) in enumerate(SEEDS):
         name = f'seed{si}'
         w0 = fresh_world(cur, other)
         cr.seed_def(name, w0.cur, w0.others[0])
@@ -573,7 +586,7 @@ def explore_exhaustive(cr, depth, depth_extra, do_search=True):
                 status[ops] = 'clean'
                 ck.count('search:clean-sequences')
 
-        for ops in exhaustive_sequences(ck, si, alphabet, depth, depth_extra):
+        for ops in exhaustive_sequences(ck, si, alphabet, depth, depth_extra, light='light' in flags):
             visit(ops)
 
 
@@ -723,7 +736,7 @@ def explore_random(cr, nseq, length, do_search=True):
     ck = cr.ck
     rng = random.Random(f'{ck.seed}:c13r')
     pool = corpus_pool(ck, nseq)
-    others = ['CN', 'O', 'CC(=O)O', '[Na+].[Cl-]', 'C1CC1']
+    others = ['CN', 'O', 'CC(=O)O', '[Na+].[Cl-]', 'C1CC1', 'CN@60', 'C1CC1@70']       # @n: numbers disjoint from the corpus molecule
     first = len(cr.cases)
     for i in range(nseq):
         smi = pool[i % len(pool)]
@@ -888,12 +901,53 @@ def expected_exception(world, op):
     return None
 
 
+def comp_snapshot(m):
+    """connected components (own traversal of _bonds, no cached property involved): frozenset(atoms) -> (structure, stereo labels).
+    None when the adjacency is broken."""
+    if not adjacency_ok(m):
+        return None
+    seen = set()
+    out = {}
+    for s in m._atoms:
+        if s in seen:
+            continue
+        comp, stack = {s}, [s]
+        while stack:
+            x = stack.pop()
+            for y in m._bonds[x]:
+                if y not in comp:
+                    comp.add(y)
+                    stack.append(y)
+        seen |= comp
+        atoms = sorted((n, m._atoms[n].atomic_number, m._atoms[n]._isotope, m._atoms[n]._charge, m._atoms[n]._is_radical) for n in comp)
+        bonds = sorted((n, k, bd._order) for n in comp for k, bd in m._bonds[n].items() if n < k)
+        labels = (sorted((n, getattr(m._atoms[n], '_stereo', UNSET)) for n in comp if getattr(m._atoms[n], '_stereo', None) is not None),
+                  sorted((n, k, getattr(bd, '_stereo', UNSET)) for n in comp for k, bd in m._bonds[n].items()
+                         if n < k and getattr(bd, '_stereo', None) is not None))
+        out[frozenset(comp)] = ((atoms, bonds), labels)
+    return out
+
+
+def stereo_locality(pre, post):
+    """a connected component whose atoms and bonds are exactly what they were keeps exactly its stereo labels: whether a centre
+    is stereogenic depends on its own component only (oracle independent of fix_stereo and of any cache)"""
+    out = []
+    if pre is None or post is None:
+        return out
+    for comp, (struct, labels) in post.items():
+        if comp in pre and pre[comp][0] == struct and pre[comp][1] != labels:
+            out.append(f'component {sorted(comp)} was not touched but its stereo labels changed: {pre[comp][1]!r} -> {labels!r}')
+    return out
+
+
 class SearchHook:
-    """watches one run: unexpected exceptions, independence of the other live molecules, exact rollback"""
+    """watches one run: unexpected exceptions, independence of the other live molecules, exact rollback, stereo labels of untouched
+    components"""
 
     def __init__(self):
         self.findings = []      # (step index, kind, detail)
         self.txn = {}           # id(mol) -> deep() at __enter__
+        self.txn_comp = {}      # id(mol) -> comp_snapshot() at __enter__
         self.origin = {}        # id(mol) -> how the object was made
         self.tainted = set()    # molecules whose coherence is the caller's duty (setter outside a transaction, made inside one)
 
@@ -907,6 +961,8 @@ class SearchHook:
         self.n_others = len(world.others)
         self.pre_changed = repr(getattr(world.cur, '_changed', UNSET))
         self.pre_slots = (hasattr(world.cur, '_changed'), hasattr(world.cur, '_backup'))
+        self.pre_comp = self.txn_comp.get(id(world.cur)) if op[0] == 'exit_ok' and in_transaction(world.cur) else comp_snapshot(world.cur)
+        self.pre_txn = in_transaction(world.cur)
         if op[0] == 'exit_exn' and in_transaction(world.cur):
             self.rollback_to = self.txn.get(id(world.cur))
         else:
@@ -930,8 +986,15 @@ class SearchHook:
                     self.findings.append((i, 'copy-differs', 'copy() does not equal its source'))
         if op[0] == 'union' and not op[2] and world.others and id(world.others[0]) in self.tainted:
             self.tainted.add(id(m))
+        if e is None and id(m) not in self.tainted and op[0] not in ('swap', 'exit_exn') and (op[0] == 'exit_ok' or not self.pre_txn):
+            for det in stereo_locality(self.pre_comp, comp_snapshot(m)):
+                self.findings.append((i, 'stereo-locality', f'{op}: {det}'))
+            if (op[0] in ('sub', 'copy') or (op[0] == 'union' and op[2])) and len(world.others) == self.n_others + 1:
+                for det in stereo_locality(self.pre_comp, comp_snapshot(world.others[0])):
+                    self.findings.append((i, 'stereo-locality', f'{op} (the new molecule): {det}'))
         if op[0] == 'enter' and e is None:
             self.txn[id(m)] = deep(m)
+            self.txn_comp[id(m)] = self.pre_comp
         if self.rollback_to is not None and e is None:
             if deep(m) != self.rollback_to:
                 self.findings.append((i, 'rollback', 'a transaction that raised did not restore the molecule exactly'))
@@ -1112,6 +1175,25 @@ def search_stereo_and_reactions(ck):
                                    ('enter',), ('exit_ok',), ('exit_exn',), ('set_charge', 4, -1), ('copy',), ('swap',), ('sub', (1, 2, 3, 4))]),
              ('F/C=C/Cl', 'CN', [READ_STR, ('delete_atom', 1), ('delete_bond', 2, 3), ('patch', 2, 3, 1, 0), ('add_bond', 1, 4, 1),
                                  ('enter',), ('exit_ok',), ('exit_exn',), ('union', True, False), ('remap', ((1, 4), (4, 1))), ('copy',), ('swap',)])]
+    # stereo that depends on other centres' labels (pseudo-asymmetric C4; a double bond whose substituents differ by chirality
+    # only) + an ethane in another component: edits far away from the chiral part, transactions, substructures, in-place union
+    def far(e1, e2):        # e1, e2 = the ethane; e2 + 1 = the atom add_atom makes; 1 .. e1 - 1 = the chiral component
+        return [READ_STR, ('add_atom', 6, 0, False, None), ('delete_atom', e2), ('delete_bond', e1, e2), ('add_bond', e1, e2 + 1, 1),
+                ('add_bond', e1, e2 + 1, 8), ('enter',), ('exit_ok',), ('exit_exn',), ('sub', tuple(range(1, e1))), ('union', True, False),
+                ('copy',), ('swap',)]
+    seeds += [('raw:C[C@H](O)[C@H](Cl)[C@@H](C)O.CC', 'CN', far(9, 10)), ('raw:Cl/C=C([C@H](C)F)/[C@@H](C)F.CC', 'CN@20', far(10, 11)),
+              ('C[C@H](O)[C@H](Cl)[C@@H](C)O.CC', 'CN', far(9, 10)[:6])]
+    # the reader is an independent source of labels: recalculating everything on a freshly read molecule must keep them
+    for smi in ('C[C@H](O)[C@H](Cl)[C@@H](C)O', 'C[C@H](O)[C@@H](Cl)[C@@H](C)O', 'Cl/C=C([C@H](C)F)/[C@@H](C)F', 'C[C@H](F)O', 'F/C=C/Cl'):
+        m = smiles(smi)
+        before = comp_snapshot(m)
+        normalise(m)
+        ck.case(('reader-labels', smi), nontrivial=True)
+        for det in stereo_locality(before, comp_snapshot(m)):
+            ck.counterexample(f'stereo-recalculation:{smi}', 'flush_cache + fix_structure + fix_stereo on a freshly read molecule changed its stereo labels: ' + det[:200],
+                              {'smiles': smi}, det, 'labels as read', 'the reader',
+                              replay_py=f'from chython import smiles\nm = smiles({smi!r}); print({{n: a.stereo for n, a in m.atoms()}}); m.flush_cache(); '
+                                        f'm.fix_structure(); m.fix_stereo(); print({{n: a.stereo for n, a in m.atoms()}})')
     for cur, other, alphabet in seeds:
         status = {}
         for d in range(0, 3):
